@@ -4,7 +4,7 @@
    state.  With Algo = "pinned" TLC finds the history  pA? no: <<pZ>>, <<pA>>, <<pB>> ... after
    which Get misses a stored key (two distinct types that print alike); with Algo = "run-scan"
    the contract holds for every history.                                                         *)
-EXTENDS AliasTrie, AliasVocab, TLC, Json
+EXTENDS AliasTrie, AliasVocab, TLC, Json, SequencesExt
 CONSTANTS MaxOps, Domain, QLen, ExportFile
 VARIABLES trie, abs, n
 
@@ -37,6 +37,5 @@ NodeOK(node) == /\ OM!Sorted(node.children)
 RepInv == NodeOK(trie)
 
 (* export of the enumeration domain for the replay harness (single source: this module) *)
-SetToSeq(S) == LET RECURSIVE F(_) F(T) == IF T = {} THEN <<>> ELSE LET x == CHOOSE x \in T : TRUE IN <<x>> \o F(T \ {x}) IN F(S)
 ASSUME ExportFile = "" \/ JsonSerialize(ExportFile, [names |-> VocabNames, vocab |-> Vocab, keyseqs |-> SetToSeq(KeyIdx), queries |-> SetToSeq(QSeqs), maxops |-> MaxOps])
 =============================================================================
